@@ -183,7 +183,9 @@ TTree ==
          InsideOnLine(i) == \E j \in 1..N : (j # i) /\ InsideRing(nodes[i], nodes[j])
          horzClass == cs.rect /\ (mis # {}) /\ (\A i \in mis : HoleAtTop(i) /\ TouchesNone(i) /\ InsideOnLine(i))
      IN /\ Chk(Ev.ok = 1, "C11", "execute_returned_false", Ev.k)
-        /\ a.lat => Chk(SameRings(a.paths, nodes), "C04", "tree_paths_differ", Ev.k)
+        \* (not for "loose" inputs: without general position a contour that pinches after rounding may be split by the tree builder and not by the
+        \*  paths builder; such a case is simply not judged, see apart)
+        /\ (a.lat /\ ~cs.loose) => Chk(SameRings(a.paths, nodes), "C04", "tree_paths_differ", Ev.k)
         /\ Chk(Ev.openeq = 1, "C04", "open_paths_differ", Ev.k)
         /\ judgeL =>
              /\ Chk(\A i \in 1..N : par[i] # 0 => InsideRing(nodes[i], nodes[par[i]]), "C04", "child_not_in_parent", Ev.k)
